@@ -503,6 +503,19 @@ func ctorTemplates() []Tmpl {
 		n := &Node{Pre: []*Line{b.line(x + " := []any{"), b.tl("\t%T{},", useT(ULit, t, ""), refT(t, SubLit)), b.tl("\tnew(%T),", useT(UNew, t, ""), free(refT(t, SubOther), TONL)), b.line("}")}}
 		return []*Node{n, b.stmt("_ = " + x)}
 	}})
+	// elided element literals on lines of their own: when the first line is suppressed, the once-per-file report moves here
+	ts = append(ts, Tmpl{Name: "lit-multi-line-elided", Cat: TONL, Kind: "struct", Make: func(b *B, t *Type, env *Env) []*Node {
+		x := b.v()
+		el := func(txt string) *Line {
+			l := b.tl(txt, useT(ULit, t, ""), free(refT(t, SubLit), PKGO))
+			l.Feature = "multi-line-elided-literal"
+			return l
+		}
+		first := b.tl(x+" := []%T{", composite(refT(t, SubLit)))
+		first.Feature = "multi-line-elided-literal"
+		n := &Node{Pre: []*Line{first, el("\t{},"), el("\t{F: 1},"), b.line("}")}}
+		return []*Node{n, b.stmt("_ = " + x)}
+	}})
 	// FREE for CTOR
 	ts = append(ts, one("new-paren-callee", true, "$x := (new)(%T)", func(t *Type) []*Use {
 		u := useT(UNew, t, "")
